@@ -38,6 +38,8 @@ type refVal struct {
 	Valset     map[string]int64          // reference tendermint validator set
 	Seen       map[common.Address]uint64 // accepted block-seen reports (latest block number per keyper)
 	ForkOn     bool
+	ForkHeight int64
+	Height     int64 // height of the block that is open (1 + number of blocks closed)
 }
 
 type refCfg struct {
@@ -56,7 +58,7 @@ type c12node struct {
 }
 
 func (r *refVal) clone() *refVal {
-	n := &refVal{ForkOn: r.ForkOn, Identities: map[common.Address]string{}, Valset: map[string]int64{}, Seen: map[common.Address]uint64{}}
+	n := &refVal{ForkOn: r.ForkOn, ForkHeight: r.ForkHeight, Height: r.Height, Identities: map[common.Address]string{}, Valset: map[string]int64{}, Seen: map[common.Address]uint64{}}
 	n.Configs = append(n.Configs, r.Configs...)
 	for k, v := range r.Seen {
 		n.Seen[k] = v
@@ -162,6 +164,8 @@ type c12cfg struct {
 	N, T    int
 	Fork    bool
 	Foreign bool
+	// ForkHeight: height at which the check-in fork becomes active (with Fork)
+	ForkHeight int64
 	// Shape of the candidate configuration: "" = rotation (same size and threshold),
 	// "grow" = the genesis keypers plus two more with threshold T+1, "shrink" = the
 	// second genesis keyper alone with threshold 1 (needs N >= 2): the check-in quorum
@@ -193,7 +197,7 @@ func c12World(cf c12cfg) (*appx.World, appx.Genesis, []appx.Op) {
 		{Members: rot, Threshold: t0, IndexPlus: 1, Act: 5},
 		{Members: rot2, Threshold: uint64(cf.T), IndexPlus: 1, Act: 5},
 	}, SeenBlocks: []uint64{5}}
-	g := appx.Genesis{Members: members, Threshold: uint64(cf.T), ForkEnabled: cf.Fork}
+	g := appx.Genesis{Members: members, Threshold: uint64(cf.T), ForkEnabled: cf.Fork, ForkHeight: cf.ForkHeight}
 	var ops []appx.Op
 	last := cf.N
 	if cf.Shape == "grow" {
@@ -226,6 +230,24 @@ func c12Step(w *appx.World, genesisSet map[string]int64, n c12node, o appx.Op, s
 	res := w.Step(a, o, n.nonce())
 	next := c12node{node{a, n.nops + 1}, ref, n.pre}
 	if res.Deliver != nil {
+		if o.Kind == "checkin" {
+			// whether a check-in counts is decided by the reference: the sender must be a
+			// keyper of some accepted configuration, and a repeated check-in (key change)
+			// only counts once the check-in fork is active (enabled and the open block's
+			// height has reached the fork height)
+			sender := w.U.Addrs[o.Sender]
+			member := false
+			for _, c := range ref.Configs {
+				for _, k := range c.Keypers {
+					member = member || k == sender
+				}
+			}
+			_, again := ref.Identities[sender]
+			want := member && (!again || (ref.ForkOn && ref.Height >= ref.ForkHeight))
+			if got := res.Deliver.Code == 0; got != want {
+				return next, fmt.Sprintf("check-in of participant %d in block %d (member of an accepted configuration: %v, checked in before: %v, fork enabled: %v at height %d) is %s", o.Sender, ref.Height, member, again, ref.ForkOn, ref.ForkHeight, map[bool]string{true: "accepted although it must not count", false: "refused (" + res.Deliver.Log + ") although it must count"}[got])
+			}
+		}
 		if res.Deliver.Code != 0 {
 			return next, ""
 		}
@@ -245,6 +267,7 @@ func c12Step(w *appx.World, genesisSet map[string]int64, n c12node, o appx.Op, s
 		}
 		return next, ""
 	}
+	ref.Height++
 	// block end: which configurations start now is decided by the reference itself
 	// (a configuration starts once a threshold of the preceding configuration's
 	// keypers reported a main-chain block at or past its activation block; the
@@ -353,6 +376,15 @@ func c12Parallel(cf c12cfg) int {
 	return 1
 }
 
+// c12Depth: the configurations added for other candidate shapes and a later fork
+// height are searched one level less deep than the basic ones.
+func c12Depth(cf c12cfg, depth int) int {
+	if cf.Shape != "" || cf.ForkHeight != 0 {
+		return depth - 1
+	}
+	return depth
+}
+
 func c12Key(n c12node) string {
 	// the reference is a function of the observable history; two histories that
 	// reach the same app state but different reference states are kept apart.
@@ -382,6 +414,9 @@ func c12() *report.Check {
 					for _, fork := range []bool{false, true} {
 						cfgs = append(cfgs, c12cfg{N: n, T: t, Fork: fork})
 					}
+					// the check-in fork becomes active at height 2 (key changes before, at and
+					// after that block)
+					cfgs = append(cfgs, c12cfg{N: n, T: t, Fork: true, ForkHeight: 2})
 					// a candidate whose size and threshold (hence check-in quorum) differ
 					cfgs = append(cfgs, c12cfg{N: n, T: t, Shape: "grow"})
 					if n >= 2 {
@@ -397,14 +432,14 @@ func c12() *report.Check {
 				w, g, alphabet := c12World(cf)
 				a, _ := w.U.NewApp(g)
 				genesisSet := map[string]int64{string(appx.GenesisValidator): 10}
-				ref := &refVal{ForkOn: cf.Fork, Identities: map[common.Address]string{}, Seen: map[common.Address]uint64{}, Valset: map[string]int64{string(appx.GenesisValidator): 10},
+				ref := &refVal{ForkOn: cf.Fork, ForkHeight: cf.ForkHeight, Height: 1, Identities: map[common.Address]string{}, Seen: map[common.Address]uint64{}, Valset: map[string]int64{string(appx.GenesisValidator): 10},
 					Configs: []refCfg{{Keypers: w.U.AddrsOf(g.Members), Threshold: g.Threshold, Index: 0}}}
 				if p := c12Parallel(cf); p > 2 {
 					runtime.GOMAXPROCS(p)
 				}
 				var b *explore.BFS[c12node]
 				b = &explore.BFS[c12node]{
-					Key: c12Key, MaxDepth: depth, Deadline: c.Deadline, KeepPaths: true, Parallel: c12Parallel(cf),
+					Key: c12Key, MaxDepth: c12Depth(cf, depth), Deadline: c.Deadline, KeepPaths: true, Parallel: c12Parallel(cf),
 					Expand: func(n c12node, d int, path []string, emit func(string, c12node)) {
 						for _, o := range alphabet {
 							next, msg := c12Step(w, genesisSet, n, o, c.Stats)
@@ -494,7 +529,7 @@ func c12() *report.Check {
 				if b.Capped != "" {
 					c.Stats.Cap(fmt.Sprintf("n=%d t=%d fork=%v: %s at depth %d", cf.N, cf.T, cf.Fork, b.Capped, b.DepthDone))
 				}
-				c.Stats.SetExtra(fmt.Sprintf("n%d_t%d_fork%v%s", cf.N, cf.T, cf.Fork, cf.Shape), map[string]any{"states": b.States, "transitions": b.Transitions, "depth_completed": b.DepthDone, "frontier_not_expanded": b.FrontierCut})
+				c.Stats.SetExtra(fmt.Sprintf("n%d_t%d_fork%v%s_h%d", cf.N, cf.T, cf.Fork, cf.Shape, cf.ForkHeight), map[string]any{"states": b.States, "transitions": b.Transitions, "depth_completed": b.DepthDone, "frontier_not_expanded": b.FrontierCut})
 				if ci == 0 {
 					c.Stats.Sample(map[string]any{"config": cf, "alphabet": fmt.Sprint(alphabet), "depth": depth})
 				}
@@ -514,7 +549,7 @@ func c12() *report.Check {
 			w, g, _ := c12World(rp.Cfg)
 			a, _ := w.U.NewApp(g)
 			genesisSet := map[string]int64{string(appx.GenesisValidator): 10}
-			n := c12node{node{a, 0}, &refVal{ForkOn: rp.Cfg.Fork, Identities: map[common.Address]string{}, Seen: map[common.Address]uint64{}, Valset: map[string]int64{string(appx.GenesisValidator): 10},
+			n := c12node{node{a, 0}, &refVal{ForkOn: rp.Cfg.Fork, ForkHeight: rp.Cfg.ForkHeight, Height: 1, Identities: map[common.Address]string{}, Seen: map[common.Address]uint64{}, Valset: map[string]int64{string(appx.GenesisValidator): 10},
 				Configs: []refCfg{{Keypers: w.U.AddrsOf(g.Members), Threshold: g.Threshold, Index: 0}}}, nil}
 			for _, o := range rp.Ops {
 				var msg string
